@@ -133,6 +133,15 @@ class Calculation(UnaryOperation):
                     f"{set(self.columns_required - current.target.columns)}",
                 ),
             )
+        if self.tag in current.target.columns:
+            # The existing operation is a projection that hides a column with
+            # this tag; the calculation cannot be applied upstream of it.
+            return UnaryCommutator(
+                first=None,
+                second=current.operation,
+                done=False,
+                messages=(f"{current.target} already has a column {self.tag}",),
+            )
         # If we commute a calculation before a projection, the
         # projection also needs to include the calculated column.
         return UnaryCommutator(
